@@ -1,6 +1,6 @@
 package c04
 
-// Worlds for C04: tiny remote histories (bare Git remote + fake LFS server), skip-smudge base clones
+// Worlds for C04: tiny remote histories (bare Git remote + fake LFS server), filter-less base clones (pointer files in the work tree)
 // prepared once per (world, checked-out ref, reference-store yes/no) and copied per case.
 
 import (
@@ -68,7 +68,7 @@ type worldDef struct {
 	name  string
 	refs  []string        // names that can be checked out: main, v1, feature
 	trees map[string]tree // ref -> tree at that ref
-	build func(w *gitx.World, src string)
+	build func(ev *env, src string)
 }
 
 // fetchName is the name by which a fresh clone (that only has a local branch for what it checked out) can name ref.
@@ -79,7 +79,7 @@ func fetchName(ref string) string {
 	return ref
 }
 
-func setTree(w *gitx.World, src string, t tree, msg string) {
+func setTree(ev *env, src string, t tree, msg string) {
 	ents, _ := os.ReadDir(src)
 	for _, e := range ents {
 		if e.Name() == ".git" || e.Name() == ".gitattributes" {
@@ -90,18 +90,18 @@ func setTree(w *gitx.World, src string, t tree, msg string) {
 	for p, d := range t {
 		gitx.WriteFile(src, p, d, 0644)
 	}
-	w.MustGit(src, "add", "-A")
-	w.MustGit(src, "commit", "-q", "--allow-empty", "-m", msg)
+	ev.mustGit(src, "add", "-A")
+	ev.mustGit(src, "commit", "-q", "--allow-empty", "-m", msg)
 }
 
 func worlds() []*worldDef {
 	w0c1 := tree{"a.bin": cA1, "b.bin": cB1, "plain.txt": cPlain}
 	w0c2 := tree{"a.bin": cA2, "b.bin": cB1, "dir/c.bin": cC1, "plain.txt": cPlain}
 	w0 := &worldDef{name: "linear", refs: []string{"main", "v1"}, trees: map[string]tree{"main": w0c2, "v1": w0c1}}
-	w0.build = func(w *gitx.World, src string) {
-		setTree(w, src, w0c1, "c1")
-		w.MustGit(src, "tag", "v1")
-		setTree(w, src, w0c2, "c2")
+	w0.build = func(ev *env, src string) {
+		setTree(ev, src, w0c1, "c1")
+		ev.mustGit(src, "tag", "v1")
+		setTree(ev, src, w0c2, "c2")
 	}
 
 	w1c1 := tree{"a.bin": cA1, "b.bin": cB1, "plain.txt": cPlain}
@@ -109,20 +109,20 @@ func worlds() []*worldDef {
 	w1m := tree{"a.bin": cA2, "b.bin": cB1, "plain.txt": cPlain}
 	w1merge := tree{"a.bin": cA2, "b.bin": cB2, "dir/c.bin": cC1, "plain.txt": cPlain}
 	w1 := &worldDef{name: "merge", refs: []string{"main", "feature", "v1"}, trees: map[string]tree{"main": w1merge, "feature": w1f, "v1": w1c1}}
-	w1.build = func(w *gitx.World, src string) {
-		setTree(w, src, w1c1, "c1")
-		w.MustGit(src, "tag", "v1")
-		w.MustGit(src, "checkout", "-q", "-b", "feature")
-		setTree(w, src, w1f, "feature work")
-		w.MustGit(src, "checkout", "-q", "main")
-		setTree(w, src, w1m, "main work")
-		w.MustGit(src, "merge", "-q", "-s", "ours", "--no-commit", "feature")
-		setTree(w, src, w1merge, "merge feature")
+	w1.build = func(ev *env, src string) {
+		setTree(ev, src, w1c1, "c1")
+		ev.mustGit(src, "tag", "v1")
+		ev.mustGit(src, "checkout", "-q", "-b", "feature")
+		setTree(ev, src, w1f, "feature work")
+		ev.mustGit(src, "checkout", "-q", "main")
+		setTree(ev, src, w1m, "main work")
+		ev.mustGit(src, "merge", "-q", "-s", "ours", "--no-commit", "feature")
+		setTree(ev, src, w1merge, "merge feature")
 	}
 
 	w2t := tree{"a.bin": cA1, "dir/c.bin": cA1, "b.bin": cS, "e.bin": []byte{}, "sp ace.bin": cD1, "plain.txt": cPlain, "empty.txt": []byte{}}
 	w2 := &worldDef{name: "dups", refs: []string{"main"}, trees: map[string]tree{"main": w2t}}
-	w2.build = func(w *gitx.World, src string) { setTree(w, src, w2t, "c1") }
+	w2.build = func(ev *env, src string) { setTree(ev, src, w2t, "c1") }
 	return []*worldDef{w0, w1, w2}
 }
 
@@ -231,6 +231,7 @@ type env struct {
 	root    string
 	cases   string
 	plan    *plan
+	gitPath string
 	lackOid string // the object the "lacking" endpoint does not have
 }
 
@@ -263,16 +264,19 @@ func (ev *env) world(i int) *builtWorld {
 		e.err = catchTool(func() {
 			def := ev.defs[i]
 			dir := filepath.Join(ev.root, "world-"+def.name)
-			src := ev.gw.Init(filepath.Join(dir, "src"), false)
-			remote := ev.gw.Init(filepath.Join(dir, "remote.git"), true)
-			r := ev.gw.LFS(src, "track", "*.bin")
+			src, remote := filepath.Join(dir, "src"), filepath.Join(dir, "remote.git")
+			os.MkdirAll(src, 0755)
+			os.MkdirAll(remote, 0755)
+			ev.mustGit(src, "init", "-q", "-b", "main")
+			ev.mustGit(remote, "init", "-q", "--bare", "-b", "main")
+			r := ev.runCmd(src, nil, filepath.Join(ev.gw.BinDir, "git-lfs"), "track", "*.bin")
 			if !r.OK() {
 				panic("git lfs track failed: " + r.String())
 			}
-			def.build(ev.gw, src)
-			ev.gw.MustGit(src, "remote", "add", "origin", remote)
+			def.build(ev, src)
+			ev.mustGit(src, "remote", "add", "origin", remote)
 			for _, args := range [][]string{{"push", "-q", "origin", "--all"}, {"push", "-q", "origin", "--tags"}} {
-				if r := ev.gw.GitE(src, []string{"GIT_LFS_SKIP_PUSH=1"}, args...); !r.OK() {
+				if r := ev.git(src, []string{"GIT_LFS_SKIP_PUSH=1"}, args...); !r.OK() {
 					panic("push failed: " + r.String())
 				}
 			}
@@ -292,7 +296,7 @@ func (ev *env) world(i int) *builtWorld {
 	return e.bw
 }
 
-// base returns the directory of the prepared skip-smudge clone for key (built once).
+// base returns the directory of the prepared pointer-file clone for key (built once).
 func (ev *env) base(k baseKey) string {
 	ev.bmu.Lock()
 	e := ev.bases[k]
@@ -306,21 +310,25 @@ func (ev *env) base(k baseKey) string {
 			bw := ev.world(k.world)
 			dir := filepath.Join(ev.root, fmt.Sprintf("base-%s-%s-ref%v", bw.def.name, k.head, k.ref))
 			os.MkdirAll(dir, 0755)
-			skip := []string{"GIT_LFS_SKIP_SMUDGE=1"}
+			// the base clones are made with the LFS filter switched off for the one Git invocation (raw pointer blobs in
+			// the work tree), so that their construction does not depend on the binary under test
+			nf := func(args ...string) []string {
+				return append([]string{"-c", "filter.lfs.smudge=", "-c", "filter.lfs.process=", "-c", "filter.lfs.clean=", "-c", "filter.lfs.required=false"}, args...)
+			}
 			local := filepath.Join(dir, "local")
 			if k.ref {
 				refrepo := filepath.Join(dir, "ref")
-				if r := ev.gw.GitE(dir, skip, "clone", "-q", bw.remote, refrepo); !r.OK() {
+				if r := ev.git(dir, nil, nf("clone", "-q", bw.remote, refrepo)...); !r.OK() {
 					panic("reference clone failed: " + r.String())
 				}
-				if r := ev.gw.GitE(dir, skip, "clone", "-q", "--reference", refrepo, bw.remote, local); !r.OK() {
+				if r := ev.git(dir, nil, nf("clone", "-q", "--reference", refrepo, bw.remote, local)...); !r.OK() {
 					panic("clone --reference failed: " + r.String())
 				}
-			} else if r := ev.gw.GitE(dir, skip, "clone", "-q", bw.remote, local); !r.OK() {
+			} else if r := ev.git(dir, nil, nf("clone", "-q", bw.remote, local)...); !r.OK() {
 				panic("clone failed: " + r.String())
 			}
 			if k.head != "main" {
-				if r := ev.gw.GitE(local, skip, "checkout", "-q", k.head); !r.OK() {
+				if r := ev.git(local, nil, nf("checkout", "-q", k.head)...); !r.OK() {
 					panic("checkout of base head failed: " + r.String())
 				}
 			}
